@@ -99,6 +99,12 @@ MODEL_ARGS_BIG = {
 }
 
 
+# scale exponents of the lattice inputs (amplitudes times 2^se: 1e-12, 1e-18, 1e-60, 1e-90 / 1e12, 1e60 roughly)
+SCALE_EXPS = (-40, -60, -200, -300, 40, 200)
+# scales of the random float inputs
+SCALES = (1e-12, 1e-18, 1e-150, 1e12, 1e150)
+
+
 # ---------------------------------------------------------------------------
 # lattice inputs (records of Kernels.tla)
 
@@ -123,13 +129,15 @@ def lattice_cases(rng, tier):
     cases = {k: [] for k in ("summate", "fourier", "incompr", "krige", "vario_u", "vario_s", "vario_d")}
     for d in (2, 3):
         for npts in (2, 4, 6, 7):
-            for ndir in (1, 2, 3):
+            for ndir in (1, 2, 3, 4):
                 for _ in range(draws * 2):
                     dirs = _vecs(rng, -3, 3, ndir, d, nonzero=True)
                     if ndir >= 2 and rng.random() < 0.6:
-                        # nearly opposite / obtuse pair: the reversed first direction, slightly turned
-                        dirs[1] = [-3 * c for c in dirs[0]]
-                        dirs[1][rng.randrange(d)] += rng.choice([-1, 1])
+                        # nearly opposite / obtuse pair: the reversed direction, slightly turned -- put at ANY two
+                        # places of the list (neighbours or not)
+                        a, b = rng.sample(range(ndir), 2)
+                        dirs[b] = [-3 * c for c in dirs[a]]
+                        dirs[b][rng.randrange(d)] += rng.choice([-1, 1])
                     cases["vario_d"].append(dict(kind="vario_d", d=d, pos=_vecs(rng, -3, 3, npts, d), f=_vecs(rng, -3, 3, rng.choice([1, 2]), npts),
                                                  edges=sorted(rng.sample(range(0, 7), rng.randint(2, 4))), dirs=dirs, tol=rng.choice([1, 1, 3])))
     for d in range(1, 5):
@@ -139,16 +147,25 @@ def lattice_cases(rng, tier):
                     base = dict(d=d, k=_vecs(rng, -3, 3, n, d), z1=_ri(rng, -3, 3, n), z2=_ri(rng, -3, 3, n),
                                 x=_vecs(rng, -3, 3, m, d))
                     cases["summate"].append(dict(kind="summate", **base))
+                    if (d + n + m) % 3 == 0 and n:
+                        cases["summate"].append(dict(kind="summate", se=rng.choice(SCALE_EXPS), **base))
                     base = dict(d=d, k=_vecs(rng, -3, 3, n, d), z1=_ri(rng, -3, 3, n), z2=_ri(rng, -3, 3, n),
                                 x=_vecs(rng, -3, 3, m, d), sf=_ri(rng, 0, 3, n))
                     cases["fourier"].append(dict(kind="fourier", **base))
+                    if (d + n + m) % 2 == 0 and n:
+                        cases["fourier"].append(dict(kind="fourier", se=rng.choice(SCALE_EXPS), **base))
                     if n <= 3:
                         base = dict(d=d, k=_vecs(rng, -2, 2, n, d, nonzero=True), z1=_ri(rng, -3, 3, n),
                                     z2=_ri(rng, -3, 3, n), x=_vecs(rng, -3, 3, m, d))
                         cases["incompr"].append(dict(kind="incompr", **base))
+                        if (d + n + m) % 3 == 1 and n:
+                            cases["incompr"].append(dict(kind="incompr", se=rng.choice(SCALE_EXPS), **base))
     for n in range(0, 5):
         for m in range(0, 5):
             for _ in range(draws * 3):
+                if n and m and (n + m) % 2 == 0:
+                    cases["krige"].append(dict(kind="krige", m=m, se=rng.choice(SCALE_EXPS), mat=_vecs(rng, -3, 3, n, n),
+                                               vecs=_vecs(rng, -3, 3, n, m), cond=_ri(rng, -3, 3, n)))
                 cases["krige"].append(dict(kind="krige", m=m, mat=_vecs(rng, -3, 3, n, n), vecs=_vecs(rng, -3, 3, n, m),
                                            cond=_ri(rng, -3, 3, n)))
     for d in range(1, 4):
@@ -218,18 +235,26 @@ def _boxes(tier):
             "Clouds == {<< <<0, 0>>, <<3, -1>>, <<1, 0>>, <<2, 0>>, <<0, 2>>, <<-3, 1>> >>,\n"
             "           << <<0, 0>>, <<2, 1>>, <<-1, 1>>, <<1, 3>>, <<3, 0>> >>,\n"
             "           << <<1, 1>>, <<1, 1>>, <<-2, 0>>, <<0, -3>>, <<3, 1>>, <<2, 2>> >>}\n"
-            "Box == \\E dirs \\in [1..2 -> DB], pos \\in Clouds, tol \\in {1, 3} :\n"
-            "         inp = [kind |-> \"vario_d\", d |-> 2, pos |-> pos, f |-> << [p \\in 1..Len(pos) |-> ((p * p) % 5) - 2] >>,\n"
-            "                edges |-> <<0, 2, 4, 7>>, dirs |-> dirs, tol |-> tol]\n"),
+            "Cloud3 == << <<0, 0>>, <<3, -1>>, <<1, 0>>, <<2, 0>>, <<0, 2>>, <<-3, 1>>, <<1, 3>>, <<-1, 2>> >>\n"
+            "DirSets == [1..2 -> DB] \\cup [1..3 -> DB]%s\n"
+            "Box == \\E dirs \\in DirSets, tol \\in {1, 3} : \\E pos \\in (IF Len(dirs) = 2 THEN Clouds ELSE {Cloud3}) :\n"
+            "         inp = [kind |-> \"vario_d\", d |-> 2, pos |-> pos, f |-> << [p \\in 1..Len(pos) |-> ((p * p) %% 5) - 2] >>,\n"
+            "                edges |-> <<0, 2, 4, 7>>, dirs |-> dirs, tol |-> tol]\n"
+            % (" \\cup [1..4 -> {<<1, 0>>, <<0, 1>>, <<-3, 1>>, <<1, 1>>}]" if big else "")),
         "vf_hist": (
-            "G == [op |-> \"gen\", v |-> 0]\n"
             "Ops == {[op |-> \"mean\", v |-> 3], [op |-> \"mean\", v |-> -2], [op |-> \"var\", v |-> -50], [op |-> \"var\", v |-> 1],\n"
-            "        [op |-> \"modes\", v |-> %s], [op |-> \"seed\", v |-> 11], [op |-> \"mean\", v |-> 1], [op |-> \"var\", v |-> 0]}\n"
-            "S0 == [mean |-> 1, ve |-> 0, modes |-> %s, seed |-> 5]\n"
-            "Box == \\/ \\E o1 \\in Ops, o2 \\in Ops : inp = [kind |-> \"vf_hist\", init |-> S0, ops |-> <<G, o1, G, o2, G>>]\n"
-            "       \\/ \\E o1 \\in Ops, o2 \\in Ops : inp = [kind |-> \"vf_hist\", init |-> S0, ops |-> <<o1, o2, G>>]\n"
-            "       \\/ \\E o1 \\in Ops, o2 \\in Ops, o3 \\in Ops : inp = [kind |-> \"vf_hist\", init |-> S0, ops |-> <<G, o1, o2, G, o3, G>>]\n"
-            % (("9", "4") if not big else ("9", "4"))),
+            "        [op |-> \"modes\", v |-> 9], [op |-> \"seed\", v |-> 11], [op |-> \"mean\", v |-> 1], [op |-> \"var\", v |-> 0],\n"
+            "        [op |-> \"copy\", v |-> 0], [op |-> \"deepcopy\", v |-> 0], [op |-> \"pickle\", v |-> 0]}\n"
+            "S0s == {[mean |-> 1, ve |-> 0, modes |-> 4, seed |-> 5], [mean |-> -3, ve |-> 1, modes |-> 4, seed |-> 5]}\n"
+            "G(gv) == [op |-> \"gen\", v |-> gv]\n"
+            "Box == \\E gv \\in 0..3, S0 \\in S0s :\n"
+            "       \\/ \\E o1 \\in Ops, o2 \\in Ops : inp = [kind |-> \"vf_hist\", init |-> S0, ops |-> <<G(gv), o1, G((gv + 1) %% 4), o2, G(gv)>>]\n"
+            "       \\/ \\E o1 \\in Ops, o2 \\in Ops : inp = [kind |-> \"vf_hist\", init |-> S0, ops |-> <<o1, o2, G(gv)>>]\n"
+            "       \\/ inp = [kind |-> \"vf_hist\", init |-> S0, ops |-> <<G(gv)>>]\n"
+            "%s" % ("       \\/ \\E o1 \\in Ops, o2 \\in Ops, o3 \\in Ops : inp = [kind |-> \"vf_hist\", init |-> S0, "
+                    "ops |-> <<G(gv), o1, o2, G((gv + 2) %% 4), o3, G(gv)>>]\n" if big else
+                    "       \\/ (gv = 0 /\\ \\E o1 \\in Ops, o2 \\in {o \\in Ops : o.op \\in {\"copy\", \"deepcopy\", \"pickle\"}}, o3 \\in Ops : "
+                    "inp = [kind |-> \"vf_hist\", init |-> S0, ops |-> <<G(0), o1, o2, G(2), o3, G(1)>>])\n")),
         "projector": (
             "Box == \\E d \\in 2..3 : \\E kv \\in [1..d -> -2..2] : inp = [kind |-> \"projector\", kv |-> kv]\n"),
     }
@@ -274,10 +299,13 @@ def case_calls(inp, flip=False):
         cov = _strided(_mat(inp["k"], n, d).T * HALF_PI, flip)
         pos = _strided(_mat(inp["x"], m, d).T, flip)
         z1, z2 = np.array(inp["z1"], dtype=np.double), np.array(inp["z2"], dtype=np.double)
+        sc = 2.0 ** inp.get("se", 0)
+        if kind != "fourier":
+            z1, z2 = z1 * sc, z2 * sc
         if kind == "summate":
             return [("summate", (cov, z1, z2, pos), lambda o: (np.array(o["field"], dtype=np.double),))]
         if kind == "fourier":
-            sf = np.array(inp["sf"], dtype=np.double)
+            sf = np.array(inp["sf"], dtype=np.double) * sc
             return [("summate_fourier", (sf, cov, z1, z2, pos), lambda o: (np.array(o["field"], dtype=np.double),))]
 
         def exp_inc(o):
@@ -293,7 +321,7 @@ def case_calls(inp, flip=False):
         n, m = len(inp["mat"]), inp["m"]
         mat = _strided(_mat(inp["mat"], n, n), flip)
         vecs = _strided(_mat(inp["vecs"], n, m), flip)
-        cond = np.array(inp["cond"], dtype=np.double)
+        cond = np.array(inp["cond"], dtype=np.double) * 2.0 ** inp.get("se", 0)
         return [
             ("calc_field_krige_and_variance", (mat, vecs, cond),
              lambda o: (np.array(o["field"], dtype=np.double), np.array(o["error"], dtype=np.double))),
@@ -438,8 +466,19 @@ def run_impls(kernel, args, extra=(), **kw):
     return run_batch([(kernel, args, extra)], **kw)[0]
 
 
-def judge(kernel, res, expected, tol_exp, sink, replay):
-    """Compare the implementations of one input.  sink(key, what, replay)."""
+def _unscale(r, scales):
+    if r is None or scales is None:
+        return r
+    t = as_tuple(r)
+    return tuple(x if sc == 1.0 or x.dtype.kind != "f" else x / sc for x, sc in zip(t, tuple(scales) + (1.0,) * len(t)))
+
+
+def judge(kernel, res, expected, tol_exp, sink, replay, scales=None):
+    """Compare the implementations of one input.  sink(key, what, replay).
+    scales: per output the factor the amplitudes were scaled with (the outputs are divided by it before they are
+    compared, so that tolerances are relative to the scale of the values: tiny and huge fields alike)."""
+    if scales is not None:
+        res = {k: (_unscale(r, scales), e) for k, (r, e) in res.items()}
     comp, cerr = res["compiled"]
     rp = dict(replay)
     if cerr:
@@ -544,7 +583,8 @@ def _lattice_group(states, threads, sink, nontriv, samples):
             meta.append((idx, inp, out, exp_of(out)))
     for (kernel, args, _e), (idx, inp, out, expected), res in zip(calls, meta, run_batch(calls, threads=threads)):
         judge(kernel, res, expected, 1e-9, sink,
-              {"kind": "lattice", "kernel": kernel, "spec_input": inp, "spec_output": out, "args": _replay_args(args)})
+              {"kind": "lattice", "kernel": kernel, "spec_input": inp, "spec_output": out, "args": _replay_args(args)},
+              scales=(2.0 ** out["se"],) if out.get("se") else None)  # only the first output (the field) carries the scale
         n += 1
         if inp["kind"] == "vario_d":
             n += caller_directional(inp, out, expected, sink, WRAPPER_THREADS[idx % len(WRAPPER_THREADS)])
@@ -686,6 +726,17 @@ def random_specs(rng, tier):
             for (n, m) in ((1, 1), (5, 17), (32, 257), (16, 3000 if d == 3 else 1200)):
                 for k in ("summate", "summate_fourier", "summate_incompr"):
                     out.append((k, rng.randrange(2**31), dict(d=d, n=n, m=m), True))
+        # value scales: tiny and huge amplitudes / variances (results are compared relative to the scale)
+        for sc in SCALES:
+            for k in ("summate", "summate_fourier", "summate_incompr"):
+                out.append((k, rng.randrange(2**31), dict(d=rng.choice([1, 2, 3]), n=rng.choice([7, 40]), m=rng.choice([3, 50]), scale=sc), True))
+            out.append(("calc_field_krige_and_variance", rng.randrange(2**31), dict(n=9, m=13, scale=sc), True))
+            out.append(("calc_field_krige", rng.randrange(2**31), dict(n=9, m=13, scale=sc), True))
+            if 1e-100 < sc < 1e100:
+                out.append(("unstructured", rng.randrange(2**31), dict(d=2, npts=40, est="m", dist="e", nan=True, scale=sc), True))
+                out.append(("directional", rng.randrange(2**31), dict(d=2, npts=30, est="m", nan=False, bw=-1.0, sep=False, scale=sc), True))
+                out.append(("structured", rng.randrange(2**31), dict(r=9, c=5, est="m", scale=sc), True))
+                out.append(("ma_structured", rng.randrange(2**31), dict(r=9, c=5, est="m", scale=sc), True))
         # fewer points (bins) than threads, many modes: the thread count must still be unobservable
         for m in (1, 2, 3):
             for n in (65, 1000):
@@ -745,9 +796,10 @@ def random_args(kernel, seed, p):
             z2[1] = -np.inf
         elif sp == "zero-mode":
             cov[:, 0] = 0.0  # |k| = 0: the projector divides 0 by 0 (NaN in C)
+        sc = p.get("scale", 1.0)
         if kernel == "summate_fourier":
-            return (g.uniform(0, 2, size=p["n"]), cov, z1, z2, pos), ()
-        return (cov, z1, z2, pos), ()
+            return (g.uniform(0, 2, size=p["n"]) * sc, cov, z1, z2, pos), ()
+        return (cov, z1 * sc, z2 * sc, pos), ()
     if kernel.startswith("calc_field"):
         mat, vecs, cond = g.normal(size=(p["n"], p["n"])), g.normal(size=(p["n"], p["m"])), g.normal(size=p["n"])
         if p.get("special") == "nan":
@@ -755,7 +807,7 @@ def random_args(kernel, seed, p):
         elif p.get("special") == "inf":
             vecs[0, 0] = np.inf
             cond[1] = -np.inf
-        return (mat, vecs, cond), ()
+        return (mat, vecs, cond * p.get("scale", 1.0)), ()
     if kernel in ("unstructured", "directional"):
         npts, d = p["npts"], p["d"]
         if p.get("dist") == "h":
@@ -771,7 +823,7 @@ def random_args(kernel, seed, p):
             edges = np.array([0.0, 0.5, 1.0, 1.7, 2.5, 4.0, 9.0])
             if p.get("nbins"):
                 edges = np.array([0.0, 1.5, 4.0])[: p["nbins"] + 1]
-        f = g.normal(size=(g.integers(1, 3), npts))
+        f = g.normal(size=(g.integers(1, 3), npts)) * p.get("scale", 1.0)
         if p.get("nan"):
             f[0, g.integers(0, npts, size=max(1, npts // 10))] = np.nan
         if kernel == "unstructured":
@@ -781,7 +833,7 @@ def random_args(kernel, seed, p):
         dirs /= np.linalg.norm(dirs, axis=1)[:, None]
         return (f, edges, pos, dirs), (float(g.uniform(0.4, 1.2)), p["bw"], bool(p["sep"]), p["est"])
     if kernel in ("structured", "ma_structured"):
-        f = g.normal(size=(p["r"], p["c"]))
+        f = g.normal(size=(p["r"], p["c"])) * p.get("scale", 1.0)
         if kernel == "structured":
             return (f,), (p["est"],)
         mask = (g.random(size=f.shape) < 0.3).astype(np.uint8)
@@ -800,7 +852,11 @@ def _task_random(spec):
 
     t0 = time.time()
     res = run_impls(kernel, args, extra, with_interp=with_interp, wrapper_threads=(None,) if not with_interp else WRAPPER_THREADS)
-    judge(kernel, res, None, None, sink, {"kind": "random", "kernel": kernel, "seed": seed, "params": p})
+    sc = p.get("scale")
+    scales = None
+    if sc:  # variogram estimates scale with the square of the field values (Matheron), everything else linearly
+        scales = (sc * sc,) if kernel in ("unstructured", "directional", "structured", "ma_structured") else (sc,)
+    judge(kernel, res, None, None, sink, {"kind": "random", "kernel": kernel, "seed": seed, "params": p}, scales=scales)
     comp = res["compiled"][0]
     nz = comp is not None and any(np.any(np.nan_to_num(np.asarray(x)) != 0) for x in as_tuple(comp))
     return {"viol": viol, "n": 1, "nontrivial": {hash((kernel, seed))} if nz else set(),
@@ -1119,32 +1175,33 @@ def callers_check(rep, seed, interp0):
     # generator call = documented formula applied to the kernel sum over the generator's own samples
     g = np.random.default_rng(seed + 1)
 
-    def rel_randmeth(d, modes):
-        rm = gen.RandMeth(gs.Exponential(dim=d, var=2.25, len_scale=0.8), mode_no=modes, seed=seed % 977)
-        return rm, (lambda pos: rm(pos)), (lambda pos: math.sqrt(2.25 / modes) * rewriter.call(
+    def rel_randmeth(d, modes, vs):
+        rm = gen.RandMeth(gs.Exponential(dim=d, var=2.25 * vs, len_scale=0.8), mode_no=modes, seed=seed % 977)
+        return rm, (lambda pos: rm(pos)), (lambda pos: math.sqrt(2.25 * vs / modes) * rewriter.call(
             interp0.summate, rm._cov_sample, rm._z_1, rm._z_2, pos)), "RandMeth(pos) != sqrt(var/N) * summate(own samples)"
 
-    def rel_incompr(d, modes):
-        im = gen.IncomprRandMeth(gs.Gaussian(dim=d, var=0.25, len_scale=1.3), mean_velocity=2.0, mode_no=modes, seed=seed % 977)
+    def rel_incompr(d, modes, vs):
+        im = gen.IncomprRandMeth(gs.Gaussian(dim=d, var=0.25 * vs, len_scale=1.3), mean_velocity=2.0, mode_no=modes, seed=seed % 977)
         e1 = np.zeros((d, 1))
         e1[0] = 1.0
-        return im, (lambda pos: im(pos)), (lambda pos: 2.0 * e1 + 2.0 * math.sqrt(0.25 / modes) * rewriter.call(
+        return im, (lambda pos: im(pos) - 2.0 * e1), (lambda pos: 2.0 * math.sqrt(0.25 * vs / modes) * rewriter.call(
             interp0.summate_incompr, im._cov_sample, im._z_1, im._z_2, pos)), \
-            "IncomprRandMeth(pos) != mean*e1 + mean*sqrt(var/N) * summate_incompr(own samples)"
+            "IncomprRandMeth(pos) - mean*e1 != mean*sqrt(var/N) * summate_incompr(own samples)"
 
-    def rel_fourier(d, modes):
-        fm = gen.Fourier(gs.Gaussian(dim=d, var=1.0, len_scale=1.3), period=[6.0] * d, mode_no=[4 if modes < 100 else 12] * d, seed=seed % 977)
+    def rel_fourier(d, modes, vs):
+        fm = gen.Fourier(gs.Gaussian(dim=d, var=1.0 * vs, len_scale=1.3), period=[6.0] * d, mode_no=[4 if modes < 100 else 12] * d, seed=seed % 977)
         return fm, (lambda pos: fm(pos)), (lambda pos: rewriter.call(
             interp0.summate_fourier, fm._spectrum_factor, fm._modes, fm._z_1, fm._z_2, pos)), "Fourier(pos) != summate_fourier(own samples)"
 
     rels = [("RandMeth", rel_randmeth, (1, 2, 3)), ("IncomprRandMeth", rel_incompr, (2, 3)), ("Fourier", rel_fourier, (1, 2))]
     for cls, build, dims in rels:
         for d in dims:
-            for npts, modes, nt in ((11, 12, None), (2, 300, 8), (1, 300, 2), (3, 300, 16)):
+            for npts, modes, nt, vs in ((11, 12, None, 1.0), (2, 300, 8, 1.0), (1, 300, 2, 1.0), (3, 300, 16, 1.0),
+                                        (7, 12, None, 1e-12), (7, 300, 4, 1e-18), (5, 12, None, 1e-150), (5, 12, 2, 1e12)):
                 pos = g.uniform(-4, 4, size=(d, npts))
                 config.NUM_THREADS = nt
                 try:
-                    _obj, call, formula, what = build(d, modes)
+                    _obj, call, formula, what = build(d, modes, vs)
                     with np.errstate(all="ignore"):
                         got = call(pos)
                 except Exception as e:  # noqa: BLE001  the code under test raised
@@ -1161,12 +1218,18 @@ def callers_check(rep, seed, interp0):
                 except Exception as e:  # noqa: BLE001  the interpreted source fails: already reported by the kernel comparison
                     rep.note("generator-vs-kernel relation not evaluated for %s in dim %d: the interpreted kernel raised %r" % (cls, d, e))
                     continue
+                # relative to the scale of the field (sqrt of the variance): tiny and huge variances alike
+                scl = math.sqrt(vs)
+                if cls == "IncomprRandMeth" and vs < 1e-6:
+                    scl = 1.0  # the fluctuation is below the rounding of mean*e1 + fluctuation: absolute comparison
+                got, want = np.asarray(got) / scl, np.asarray(want) / scl
                 rep.count(1)
                 rep.traces += 1
                 if not close(got, want, 1e-12):
                     rep.violation("caller:%s:kernel-relation" % cls,
-                                  "dim %d, %d points, %d modes, NUM_THREADS=%s: %s (interpreted current .pyx as the kernel): got %s, want %s"
-                                  % (d, npts, modes, nt, what, _short(got), _short(want)),
+                                  "dim %d, %d points, %d modes, variance scale %g, NUM_THREADS=%s: %s (interpreted current .pyx as the kernel; "
+                                  "values relative to sqrt of the variance scale): got %s, want %s"
+                                  % (d, npts, modes, vs, nt, what, _short(got), _short(want)),
                                   {"kind": "caller-relation", "class": cls, "dim": d, "seed": seed, "got": got, "want": want})
 
 
@@ -1407,7 +1470,9 @@ def _task_fields(job):
     return {"viol": viol, "n": n, "nontrivial": {hash((name, dim, seed))}, "samples": samples}
 
 
-HIST_MODELS = (("Gaussian", 2), ("Exponential", 3), ("Matern", 2))
+# dim 3 / other classes need MCMC sampling at every reseed (25..60 ms): one history in five in quick
+HIST_MODELS = (("Gaussian", 2), ("Exponential", 2), ("Gaussian", 2), ("Exponential", 2), ("Gaussian", 3))
+HIST_MODELS_THOROUGH = (("Gaussian", 2), ("Gaussian", 3), ("Exponential", 2), ("Exponential", 3), ("Matern", 2))
 
 
 def _hist_settings(st):
@@ -1419,30 +1484,122 @@ def _hist_srf(gs, name, dim, cfg):
                   mean_velocity=cfg["mean"])
 
 
-def run_history(gs, name, dim, inp, out, pts, sink):
-    """One history of Kernels.tla (kind vf_hist) on ONE SRF object; after every "gen" the field must be the field of
-    the settings TLC lists for it.  -> number of generated fields checked."""
-    cfg0 = _hist_settings(inp["init"])
-    rp = {"kind": "history", "model": name, "dim": dim, "init": inp["init"], "ops": inp["ops"]}
-    srf = _hist_srf(gs, name, dim, cfg0)
-    gens = iter(out["gens"])
-    done = []
-    n = 0
+_FRESH = {}
+
+
+def _settings_check(gs, name, dim, obj_gen, u, st, pts, what, sink, rp, done):
+    """The field u must be the vector field of settings st: mean clause, Kraichnan formula over the generator's own
+    modes, equality with a freshly built SRF.  -> False after reporting."""
     e1 = np.zeros((dim, 1))
     e1[0] = 1.0
+    u = np.asarray(u)
+    if st["var"] < 1e-20:
+        want = np.zeros_like(u)
+        want[0] = st["mean"]
+        if not close(u, want, 1e-12):
+            sink("VectorField:history:mean", "%s: the field is not (mean_velocity, 0[,0]): u(x0) = %s" % (what, u[:, 0].tolist()), dict(rp, upto=list(done)))
+            return False
+    ks, z1, z2 = np.asarray(obj_gen._cov_sample), np.asarray(obj_gen._z_1), np.asarray(obj_gen._z_2)
+    if ks.shape[1] != st["modes"]:
+        sink("VectorField:history:modes", "%s: the generator sums %d modes" % (what, ks.shape[1]), dict(rp, upto=list(done)))
+        return False
+    P = np.stack([probe_projector(_W["compiled"][0].summate_incompr, ks[:, j]) for j in range(ks.shape[1])], axis=1)
+    phase = ks.T @ pts
+    amp = z1[:, None] * np.cos(phase) + z2[:, None] * np.sin(phase)
+    want = st["mean"] * e1 + st["mean"] * math.sqrt(st["var"] / st["modes"]) * (P @ amp)
+    if not close(u, want, 1e-9 * max(1.0, abs(st["mean"]) * math.sqrt(st["var"]))):
+        sink("VectorField:history:formula", "%s: the field is not mean*e1 + mean*sqrt(var/N)*sum_j p_j(...) for the current settings: "
+             "max deviation %.3e" % (what, float(np.max(np.abs(u - want)))), dict(rp, upto=list(done)))
+        return False
+    key = (name, dim, tuple(sorted(st.items())), pts.tobytes())
+    fresh = _FRESH.get(key)
+    if fresh is None:  # the same few settings recur in many histories
+        fresh = _FRESH[key] = _hist_srf(gs, name, dim, st)(list(pts), store=False)
+    if not close(u, fresh, 1e-12 * max(1.0, abs(st["mean"]) * math.sqrt(st["var"]))):
+        sink("VectorField:history:differs-from-fresh", "%s: the field differs from a freshly built SRF with these settings: max deviation %.3e"
+             % (what, float(np.max(np.abs(u - fresh)))), dict(rp, upto=list(done)))
+        return False
+    return True
+
+
+def _build_hist_object(gs, name, dim, cfg, how):
+    """The object of a history in one of the spellings of its construction (how = 0..3).  -> (srf or None, generator)"""
+    from gstools.field.generator import IncomprRandMeth
+
+    model = _mk_model(gs, name, dim, cfg["var"])
+    if how == 0:
+        srf = gs.SRF(model, generator="VectorField", seed=cfg["seed"], mode_no=cfg["modes"], mean_velocity=cfg["mean"])
+    elif how == 1:  # generator chosen afterwards
+        srf = gs.SRF(model, seed=cfg["seed"])
+        srf.set_generator("VectorField", mean_velocity=cfg["mean"], mode_no=cfg["modes"], seed=cfg["seed"])
+    elif how == 2:  # keyword arguments in another order, through a dict
+        srf = gs.SRF(model, **{"mean_velocity": cfg["mean"], "mode_no": cfg["modes"], "generator": "VectorField", "seed": cfg["seed"]})
+    else:  # the generator class on its own
+        return None, IncomprRandMeth(model, mean_velocity=cfg["mean"], mode_no=cfg["modes"], seed=cfg["seed"])
+    return srf, srf.generator
+
+
+def run_history(gs, name, dim, inp, out, pts, sink, how=0):
+    """One history of Kernels.tla (kind vf_hist) on ONE object (an SRF with a VectorField generator, or the generator
+    class itself); after every "gen" the field must be the field of the settings TLC lists for it; a deep copy taken on
+    the way keeps the settings it was taken with.  -> number of generated fields checked."""
+    import copy
+    import pickle
+
+    cfg0 = _hist_settings(inp["init"])
+    rp = {"kind": "history", "model": name, "dim": dim, "init": inp["init"], "ops": inp["ops"], "how": how}
+    done = ["construct[%d]" % how]
+    try:
+        srf, gen = _build_hist_object(gs, name, dim, cfg0, how)
+    except Exception as e:  # noqa: BLE001
+        sink("VectorField:history:raises", "%s dim %d: construction spelling %d raised %s: %s" % (name, dim, how, type(e).__name__, e), rp)
+        return 0
+    gens = iter(out["gens"])
+    n = 0
+    original = None  # (srf, gen) kept at the first independent copy
+    pos = np.array(pts, dtype=np.double)
+
+    def generate(srf, gen, spelling):
+        if srf is not None and spelling == 0:
+            return srf(list(pts), store=False)
+        if srf is not None:
+            gen.update(srf.model)  # what SRF.__call__ does before it evaluates its generator
+        if spelling in (0, 1):
+            return gen(pos)
+        return gen(pos, add_nugget=(spelling == 3))
+
     for o in inp["ops"]:
-        done.append("%s %s" % (o["op"], o["v"]) if o["op"] != "gen" else "gen")
+        done.append("%s %s" % (o["op"], o["v"]) if o["op"] not in ("copy", "deepcopy", "pickle") else o["op"])
         try:
             if o["op"] == "mean":
-                srf.generator.mean_u = float(o["v"])
+                gen.mean_u = float(o["v"])
             elif o["op"] == "var":
-                srf.model.var = 4.0 ** o["v"]
+                if srf is not None:
+                    srf.model.var = 4.0 ** o["v"]
+                else:
+                    m = _mk_model(gs, name, dim, 4.0 ** o["v"])
+                    gen.update(m)
             elif o["op"] == "modes":
-                srf.generator.mode_no = int(o["v"])
+                gen.mode_no = int(o["v"])
             elif o["op"] == "seed":
-                srf.generator.seed = int(o["v"])
+                gen.seed = int(o["v"])
+            elif o["op"] in ("copy", "deepcopy", "pickle"):
+                obj = srf if srf is not None else gen
+                if o["op"] == "pickle":
+                    try:
+                        new = pickle.loads(pickle.dumps(obj))
+                    except Exception:  # noqa: BLE001  pickling is not supported by this tree: the operation is skipped
+                        done[-1] = "pickle (unsupported, skipped)"
+                        if original is None:
+                            original = False  # the spec's `orig` refers to this copy, which does not exist
+                        continue
+                else:
+                    new = copy.copy(obj) if o["op"] == "copy" else copy.deepcopy(obj)
+                if o["op"] != "copy" and original is None:
+                    original = (srf, gen)
+                srf, gen = (new, new.generator) if srf is not None else (None, new)
             else:
-                u = srf(list(pts), store=False)
+                u = generate(srf, gen, o["v"])
         except Exception as e:  # noqa: BLE001
             sink("VectorField:history:raises", "%s dim %d: history %s raised %s: %s" % (name, dim, done, type(e).__name__, e), rp)
             return n
@@ -1451,45 +1608,37 @@ def run_history(gs, name, dim, inp, out, pts, sink):
         st = _hist_settings(next(gens))
         n += 1
         what = "%s dim %d, after %s on one object (expected settings %s)" % (name, dim, done, st)
-        # (a) the mean clause: tiny variance => the field is (mean velocity, 0[, 0])
-        if st["var"] < 1e-20:
-            want = np.zeros_like(u)
-            want[0] = st["mean"]
-            if not close(u, want, 1e-12):
-                sink("VectorField:history:mean", "%s: the field is not (mean_velocity, 0[,0]): u(x0) = %s" % (what, u[:, 0].tolist()), dict(rp, upto=list(done)))
-                return n
-        # (b) Kraichnan formula for the CURRENT settings over the generator's own modes
-        gen = srf.generator
-        ks, z1, z2 = np.asarray(gen._cov_sample), np.asarray(gen._z_1), np.asarray(gen._z_2)
-        if ks.shape[1] != st["modes"]:
-            sink("VectorField:history:modes", "%s: the generator sums %d modes" % (what, ks.shape[1]), dict(rp, upto=list(done)))
+        if not _settings_check(gs, name, dim, gen, u, st, pts, what, sink, rp, done):
             return n
-        P = np.stack([probe_projector(_W["compiled"][0].summate_incompr, ks[:, j]) for j in range(ks.shape[1])], axis=1)
-        phase = ks.T @ pts
-        amp = z1[:, None] * np.cos(phase) + z2[:, None] * np.sin(phase)
-        want = st["mean"] * e1 + st["mean"] * math.sqrt(st["var"] / st["modes"]) * (P @ amp)
-        if not close(u, want, 1e-9):
-            sink("VectorField:history:formula", "%s: the field is not mean*e1 + mean*sqrt(var/N)*sum_j p_j(...) for the current settings: "
-                 "max deviation %.3e" % (what, float(np.max(np.abs(u - want)))), dict(rp, upto=list(done)))
+    if original and out.get("orig"):
+        st = _hist_settings(out["orig"][0])
+        osrf, ogen = original
+        try:
+            u = generate(osrf, ogen, 0)
+        except Exception as e:  # noqa: BLE001
+            sink("VectorField:history:raises", "%s dim %d: the original raised %s after %s: %s" % (name, dim, type(e).__name__, done, e), rp)
             return n
-        # (c) equal to a freshly built generator with these settings
-        fresh = _hist_srf(gs, name, dim, st)(list(pts), store=False)
-        if not close(u, fresh, 1e-12):
-            sink("VectorField:history:differs-from-fresh", "%s: the field differs from a freshly built SRF with these settings: max deviation %.3e"
-                 % (what, float(np.max(np.abs(u - fresh)))), dict(rp, upto=list(done)))
-            return n
+        n += 1
+        what = "%s dim %d, the ORIGINAL after %s were applied to its deep copy (expected settings %s)" % (name, dim, done, st)
+        _settings_check(gs, name, dim, ogen, u, st, pts, what, sink, rp, done)
     return n
 
 
 def _fold_hist(inp):
-    """(replay only) the settings per gen of a recorded history, as Kernels.tla HistGens computes them."""
-    st, out = dict(inp["init"]), []
+    """(replay only) what Kernels.tla HistGens / HistOrig compute for a recorded history."""
+    st, gens, orig = dict(inp["init"]), [], []
     for o in inp["ops"]:
         if o["op"] == "gen":
-            out.append(dict(st))
-        else:
+            gens.append(dict(st))
+        elif o["op"] in ("deepcopy", "pickle"):
+            if not orig:
+                orig.append(dict(st))
+        elif o["op"] != "copy":
             st[{"mean": "mean", "var": "ve", "modes": "modes", "seed": "seed"}[o["op"]]] = o["v"]
-    return out
+    return {"gens": gens, "orig": orig}
+
+
+_HIST_PTS = {}
 
 
 def _task_history(blocks):
@@ -1506,14 +1655,15 @@ def _task_history(blocks):
     for idx, text in blocks:
         st = tlaval.parse_state(text)
         inp, out = st["inp"], st["out"]
-        name, dim = HIST_MODELS[idx % len(HIST_MODELS)]
-        pts = g.uniform(-6, 6, size=(dim, 5))
-        k = run_history(gs, name, dim, inp, out, pts, sink)
+        models = HIST_MODELS_THOROUGH if _W.get("tier") == "thorough" else HIST_MODELS
+        name, dim = models[idx % len(models)]
+        pts = _HIST_PTS.setdefault(dim, g.uniform(-6, 6, size=(dim, 5)))
+        k = run_history(gs, name, dim, inp, out, pts, sink, how=(idx // len(models)) % 4)
         n += k
         if any(o["op"] != "gen" for o in inp["ops"]):
             nontriv.add(hash(tlaval.freeze(inp["ops"])))
         if not samples and idx % 11 == 3:
-            samples.append({"history_on_one_SRF": ["%s %s" % (o["op"], o["v"]) if o["op"] != "gen" else "gen" for o in inp["ops"]],
+            samples.append({"history_on_one_object": ["%s %s" % (o["op"], o["v"]) for o in inp["ops"]], "init": inp["init"],
                             "model": name, "dim": dim, "tlc_expected_settings_per_gen": out["gens"]})
     return {"viol": viol, "n": n, "nontrivial": nontriv, "samples": samples}
 
@@ -1548,7 +1698,7 @@ def _replay_file(path):
             import gstools as gs
             inp = {"init": rp["init"], "ops": rp["ops"]}
             pts = np.random.default_rng(12345).uniform(-6, 6, size=(rp["dim"], 5))
-            run_history(gs, rp["model"], rp["dim"], inp, {"gens": tlaval.parse(tlaval.to_tla(_fold_hist(inp)))}, pts,
+            run_history(gs, rp["model"], rp["dim"], inp, _fold_hist(inp), pts, how=rp.get("how", 0), sink=
                         lambda k, w, _r: print("  %s: %s" % (k, w)))
         elif rp.get("kind") == "caller-directional":
             for kernel, args, exp_of in case_calls(rp["spec_input"]):
@@ -1566,6 +1716,7 @@ def run(pid, tier, seed, replay=None):
         return _replay_file(replay)
     rep = Report(pid, tier, seed)
     rng = random.Random(seed)
+    _W["tier"] = tier  # inherited by the forked workers
     setup = Setup(rep, want_omp=True)
     try:
         with tlc.Scratch() as sc:
